@@ -440,7 +440,16 @@ def _distinct_signatures(members):
     """C++ cannot overload on return type or declare the same member twice: keep the first of
     each (kind-agnostic name, parameter types) and one operator per spelling and arity."""
     seen, out = set(), []
+    have_tpl_ctor = False
     for m in members:
+        if isinstance(m, M.Ctor):
+            if m.template is not None:
+                if have_tpl_ctor:
+                    continue  # two constructor templates with deducible parameters collide
+                have_tpl_ctor = True
+            if len(m.args) == 1 and m.args[0].type.ptr == '' and not m.args[0].type.ns and \
+                    m.args[0].type.name in ('This', m.name):
+                continue  # a constructor taking its own class by value is not C++
         if isinstance(m, (M.Method, M.Static, M.Ctor)):
             key = ('call', m.name, tuple(M.replace(a.type, const=False) if a.type.ptr == ''
                                          else a.type for a in m.args))
@@ -784,9 +793,10 @@ def contents(draw, ctx: Ctx, path: Tuple[str, ...], depth_left: int, max_items=N
             ns_used = used
             if prof.compilable:
                 # a namespace must not hide the foreign namespaces / enclosing names it refers to
-                ns_used = set(used) | {'gtsam', 'ns', 'std', 'Eigen'} | set(path)
+                ns_used = set(used) | {'gtsam', 'ns', 'std', 'Eigen'} | set(path) | \
+                    {c for pth in ctx.used for c in pth}  # qualified names stay unambiguous
                 if not path:
-                    ns_used -= {'gtsam'}
+                    ns_used -= {'gtsam'} - {c for pth in ctx.used for c in pth}
             nm = draw(lower_name(NS_POOL, ns_used))  # a namespace is opened once per scope
             used.add(nm)
             out.append(M.Namespace(nm, draw(contents(ctx, path + (nm,), depth_left - 1))))
